@@ -276,6 +276,24 @@ def assumptions_for(pid):
     return sorted(axioms), 'theorems=%d closed=%d rc=%d' % (len(names), closed, p.returncode)
 
 
+def coqchk_for(pid):
+    """thorough tier: re-check the compiled obligations of one property and everything they depend on with the independent
+    checker; returns (ok, axioms it reports, command, wall seconds, tail of output)"""
+    obs = obligations(pid)
+    mods = ['SageVerif.' + o[len('theories/'):-2].replace('/', '.') for o in obs]
+    cmd = ['timeout', '3000', 'coqchk', '-silent', '-o', '-R', 'theories', 'SageVerif'] + mods
+    t0 = time.time()
+    p = subprocess.run(cmd, cwd=COQ, stdout=subprocess.PIPE, stderr=subprocess.STDOUT, text=True)
+    out = p.stdout
+    axioms = []
+    m = re.search(r'\* Axioms:(.*?)\n\* ', out, re.S)
+    if m:
+        axioms = [a.strip() for a in m.group(1).split('\n') if a.strip() and a.strip() != '<none>']
+    bad = [l for l in out.split('\n') if re.match(r'\* (Constants/Inductives relying on|Inductives whose positivity)', l) and '<none>' not in l]
+    ok = p.returncode == 0 and not bad
+    return ok, axioms, 'cd /verif/coq && coqchk -silent -o -R theories SageVerif <%d modules of Props/%s>' % (len(mods), pid), time.time() - t0, out[-600:]
+
+
 # ----------------------------------------------------------------------------- cases in Coq
 def coq_eval_file(name, text, timeout=900):
     """Compile a generated file under coq/cases; return stdout (the Eval outputs)."""
